@@ -1,29 +1,12 @@
 /-
 C09, vertical half: containment of every box in its line box *with* `vertical-align: top | bottom`
-inline boxes, as long as such a box holds only text (the boundary of finding
-vertical-align-top-bottom-subtree: `translate_subtree` leaves grand-children behind).  Core Lean only.
+inline boxes at any depth and in any nesting (full strength since fix 5152049: `translate_subtree`
+moves the whole subtree, nested `top` / `bottom` subtrees are aligned on their own).  Core Lean only.
 -/
 import WpModel.Lemmas.LineVertical
 
 namespace Wp.C09L
 open Wp Wp.LV
-
-/-- a list of text boxes, none of them `top` / `bottom` -/
-def textOnlyL : List VBox → Bool
-  | [] => true
-  | .text _ _ _ _ _ va :: ks => !va.isTopBottom && textOnlyL ks
-  | .box _ _ _ _ _ _ _ :: _ => false
-
-mutual
-/-- every `vertical-align: top | bottom` inline box holds only text (and text boxes themselves are
-never `top` / `bottom`: they are anonymous) -/
-def safeTB : VBox → Bool
-  | .text _ _ _ _ _ va => !va.isTopBottom
-  | .box _ _ _ _ _ st kids => if st.va.isTopBottom then textOnlyL kids else safeTBL kids
-def safeTBL : List VBox → Bool
-  | [] => true
-  | k :: ks => safeTB k && safeTBL ks
-end
 
 /-- the running extent lies inside `[lo, hi]` -/
 def Ext.Within (e : Ext) (lo hi : Rat) : Prop := ∀ mx mn, e = some (mx, mn) → lo ≤ mn ∧ mx ≤ hi
@@ -71,217 +54,201 @@ theorem Ext.add_assoc_none (t h mt mb : Rat) :
   congr 2
   grind
 
-/-- text-only children: nothing is pending, the extent read back from the placed boxes
-(`extentKids`, used by `translate_subtree`'s caller) is the extent computed while placing them, and
-it contains every one of them -/
-theorem placeKids_textOnly (pst : VStyle) (pbase pmt by_ : Rat) : ∀ (cs : List VBox), textOnlyL cs = true →
-    (placeKids pst pbase pmt by_ cs).2.2 = [] ∧ textOnlyL (placeKids pst pbase pmt by_ cs).1 = true ∧
-    extentKids (placeKids pst pbase pmt by_ cs).1 = (placeKids pst pbase pmt by_ cs).2.1 ∧
-    ∀ d ∈ allBoxesL (placeKids pst pbase pmt by_ cs).1,
-      Ext.Contains (placeKids pst pbase pmt by_ cs).2.1 d.y (d.y + d.marginHeight)
-  | [], _ => by
-    unfold placeKids
-    exact ⟨rfl, rfl, by simp [extentKids], by intro d hd; simp [allBoxesL] at hd⟩
-  | .box _ _ _ _ _ _ _ :: _, h => by simp [textOnlyL] at h
-  | .text y h mt mb b va :: cs, hn => by
-    simp only [textOnlyL, Bool.and_eq_true, Bool.not_eq_true'] at hn
-    have ih := placeKids_textOnly pst pbase pmt by_ cs hn.2
-    unfold placeKids
-    simp only
-    have hone : placeOne pst pbase pmt by_ (.text y h mt mb b va) =
-        (.text (childBaseline pst pbase pmt by_ va (h + mt + mb) b - b) h mt mb b va,
-         Ext.add none (childBaseline pst pbase pmt by_ va (h + mt + mb) b - b)
-           (childBaseline pst pbase pmt by_ va (h + mt + mb) b - b + (h + mt + mb)), []) := by
-      unfold placeOne
-      simp only [hn.1, Bool.false_eq_true, if_false]
-    rw [hone]
-    simp only
-    refine ⟨by rw [ih.1]; rfl, by simp [textOnlyL, hn.1, ih.2.1], ?_, ?_⟩
-    · simp only [extentKids, VBox.va, hn.1, Bool.false_eq_true, if_false, extentChild]
-      rw [ih.2.2.1, Ext.add_assoc_none]
-    · intro d hd
-      simp only [allBoxesL, allBoxes, List.mem_append, List.mem_singleton] at hd
-      rcases hd with hd | hd
-      · subst hd
-        apply Ext.merge_left
-        simp only [VBox.y, VBox.marginHeight]
-        exact Ext.add_self none _ _
-      · exact Ext.merge_right _ _ _ _ (ih.2.2.2 d hd)
+theorem Ext.none_merge (o : Ext) : Ext.merge none o = o := by
+  cases o with
+  | none => rfl
+  | some p => obtain ⟨mx, mn⟩ := p; rfl
 
-/-- `translate_subtree` on text children: each is moved by what is carried down -/
-theorem shiftL_textOnly (a b c : Rat) : ∀ (ks : List VBox), textOnlyL ks = true →
-    ∀ d' ∈ allBoxesL (shiftL a b c ks), ∃ d ∈ allBoxesL ks, d'.y = d.y + c ∧ d'.marginHeight = d.marginHeight
-  | [], _, d', hd => by simp [shiftL, allBoxesL] at hd
-  | .box _ _ _ _ _ _ _ :: _, h, _, _ => by simp [textOnlyL] at h
-  | .text y h mt mb base va :: ks, hn, d', hd => by
-    simp only [textOnlyL, Bool.and_eq_true] at hn
-    simp only [shiftL, shift, allBoxesL, allBoxes, List.mem_append, List.mem_singleton] at hd
-    rcases hd with hd | hd
-    · subst hd
-      exact ⟨.text y h mt mb base va, by simp [allBoxesL, allBoxes], rfl, rfl⟩
-    · obtain ⟨d, hm, h1, h2⟩ := shiftL_textOnly a b c ks hn.2 d' hd
-      exact ⟨d, by simp [allBoxesL, hm], h1, h2⟩
+theorem Ext.add_assoc_box (t h mt mb bt pt pb bb : Rat) :
+    Ext.add none t (t + h + mt + mb + bt + pt + pb + bb) = Ext.add none t (t + (h + mt + mb + bt + pt + pb + bb)) := by
+  simp only [Ext.add]
+  congr 2
+  grind
 
 theorem childBaseline_tb (pst : VStyle) (pbase pmt by_ : Rat) (va : VAlign) (mh b : Rat)
     (h : va.isTopBottom = true) : childBaseline pst pbase pmt by_ va mh b = 0 := by
   cases va <;> simp [VAlign.isTopBottom] at h <;> rfl
 
+/-- what `placeOne` returns for a text box -/
+theorem placeOne_text_plain (pst : VStyle) (pbase pmt by_ y h mt mb b : Rat) (va : VAlign) (hs : va.isTopBottom = false) :
+    placeOne pst pbase pmt by_ (.text y h mt mb b va) =
+      (.text (childBaseline pst pbase pmt by_ va (h + mt + mb) b - b) h mt mb b va,
+       Ext.add none (childBaseline pst pbase pmt by_ va (h + mt + mb) b - b)
+         (childBaseline pst pbase pmt by_ va (h + mt + mb) b - b + (h + mt + mb)), []) := by
+  unfold placeOne
+  simp only [hs, Bool.false_eq_true, if_false]
+
+theorem placeOne_text_tb (pst : VStyle) (pbase pmt by_ y h mt mb b : Rat) (va : VAlign) (hs : va.isTopBottom = true) :
+    placeOne pst pbase pmt by_ (.text y h mt mb b va) = (.text (0 - b) h mt mb b va, none, [h + mt + mb]) := by
+  unfold placeOne
+  simp only [hs, if_true, childBaseline_tb pst pbase pmt by_ va _ b hs]
+
+/-- … for an inline box that is not `top` / `bottom` -/
+theorem placeOne_box_plain (pst : VStyle) (pbase pmt by_ y h mt mb b : Rat) (st : VStyle) (kids : List VBox)
+    (htb : st.va.isTopBottom = false) :
+    placeOne pst pbase pmt by_ (.box y h mt mb b st kids) =
+      (.box (childBaseline pst pbase pmt by_ st.va (h + mt + mb + st.bt + st.pt + st.pb + st.bb) b - b) h mt mb b st
+        (placeKids st b mt (childBaseline pst pbase pmt by_ st.va (h + mt + mb + st.bt + st.pt + st.pb + st.bb) b) kids).1,
+       (Ext.add none (childBaseline pst pbase pmt by_ st.va (h + mt + mb + st.bt + st.pt + st.pb + st.bb) b - b)
+         (childBaseline pst pbase pmt by_ st.va (h + mt + mb + st.bt + st.pt + st.pb + st.bb) b - b +
+           (h + mt + mb + st.bt + st.pt + st.pb + st.bb))).merge
+         (placeKids st b mt (childBaseline pst pbase pmt by_ st.va (h + mt + mb + st.bt + st.pt + st.pb + st.bb) b) kids).2.1,
+       (placeKids st b mt (childBaseline pst pbase pmt by_ st.va (h + mt + mb + st.bt + st.pt + st.pb + st.bb) b) kids).2.2) := by
+  unfold placeOne
+  simp only [htb, Bool.false_eq_true, if_false]
+
+/-- … for a `top` / `bottom` inline box: laid out around its own baseline 0, its extent is pending -/
+theorem placeOne_box_tb (pst : VStyle) (pbase pmt by_ y h mt mb b : Rat) (st : VStyle) (kids : List VBox)
+    (htb : st.va.isTopBottom = true) (smx smn : Rat)
+    (hsub : (placeKids st b mt 0 kids).2.1.add (0 - b) (0 - b + (h + mt + mb + st.bt + st.pt + st.pb + st.bb)) = some (smx, smn)) :
+    placeOne pst pbase pmt by_ (.box y h mt mb b st kids) =
+      (.box (0 - b) h mt mb b st (placeKids st b mt 0 kids).1, none, [smx - smn] ++ (placeKids st b mt 0 kids).2.2) := by
+  unfold placeOne
+  simp only [htb, if_true, childBaseline_tb pst pbase pmt by_ st.va _ b htb, hsub]
+
+theorem placeOne_va (pst : VStyle) (pbase pmt by_ : Rat) (c : VBox) : (placeOne pst pbase pmt by_ c).1.va = c.va := by
+  cases c with
+  | text y h mt mb b va => unfold placeOne; split <;> rfl
+  | box y h mt mb b st kids => unfold placeOne; split <;> rfl
+
+theorem placeOne_tb_ext (pst : VStyle) (pbase pmt by_ : Rat) (c : VBox) (h : c.va.isTopBottom = true) :
+    (placeOne pst pbase pmt by_ c).2.1 = none := by
+  cases c with
+  | text y h' mt mb b va => simp only [VBox.va] at h; unfold placeOne; simp only [h, if_true]
+  | box y h' mt mb b st kids => simp only [VBox.va] at h; unfold placeOne; simp only [h, if_true]
+
 mutual
-/-- **placement then `translate_subtree`**: if the extent and the pending `top` / `bottom` extents of
-a placed child fit in `[lo, hi]`, every box of the child lies in `[lo, hi]` after the translations. -/
-theorem placeOne_shift_inside (pst : VStyle) (pbase pmt by_ lo hi : Rat) : ∀ (c : VBox), safeTB c = true →
-    Ext.Within (placeOne pst pbase pmt by_ c).2.1 lo hi →
+/-- the extent `line_box_verticality` reads back from a placed subtree (`extentKids`: what
+`aligned_subtree_verticality` returned for it) is the extent computed while placing it -/
+theorem placeOne_extent (pst : VStyle) (pbase pmt by_ : Rat) : ∀ (c : VBox), c.va.isTopBottom = false →
+    extentChild (placeOne pst pbase pmt by_ c).1 = (placeOne pst pbase pmt by_ c).2.1
+  | .text y h mt mb b va, hs => by
+    simp only [VBox.va] at hs
+    rw [placeOne_text_plain pst pbase pmt by_ y h mt mb b va hs]
+    simp only [extentChild]
+    exact Ext.add_assoc_none _ _ _ _
+  | .box y h mt mb b st kids, hs => by
+    simp only [VBox.va] at hs
+    rw [placeOne_box_plain pst pbase pmt by_ y h mt mb b st kids hs]
+    simp only [extentChild]
+    rw [placeKids_extent st b mt _ kids, Ext.add_assoc_box]
+theorem placeKids_extent (pst : VStyle) (pbase pmt by_ : Rat) : ∀ (cs : List VBox),
+    extentKids (placeKids pst pbase pmt by_ cs).1 = (placeKids pst pbase pmt by_ cs).2.1
+  | [] => by unfold placeKids; simp [extentKids]
+  | c :: cs => by
+    unfold placeKids
+    simp only [extentKids, placeOne_va]
+    cases htb : c.va.isTopBottom with
+    | true =>
+      simp only [if_true]
+      rw [placeOne_tb_ext pst pbase pmt by_ c htb, Ext.none_merge]
+      exact placeKids_extent pst pbase pmt by_ cs
+    | false =>
+      simp only [Bool.false_eq_true, if_false]
+      rw [placeOne_extent pst pbase pmt by_ c htb, placeKids_extent pst pbase pmt by_ cs]
+end
+
+mutual
+/-- **placement then `translate_subtree`**: if the extent of a placed child, moved by what the
+enclosing `top` / `bottom` subtree carries down, and the pending `top` / `bottom` extents fit in
+`[lo, hi]`, every box of the child lies in `[lo, hi]` after the translations — for any nesting of
+`top` / `bottom` boxes inside each other and inside baseline-relative boxes. -/
+theorem placeOne_shift_inside (pst : VStyle) (pbase pmt by_ lo hi : Rat) : ∀ (c : VBox) (carried : Rat),
+    Ext.Within (placeOne pst pbase pmt by_ c).2.1 (lo - carried) (hi - carried) →
     (∀ e ∈ (placeOne pst pbase pmt by_ c).2.2, lo + e ≤ hi) →
-    ∀ d ∈ allBoxes (shift lo hi 0 (placeOne pst pbase pmt by_ c).1), lo ≤ d.y ∧ d.y + d.marginHeight ≤ hi
-  | .text y h mt mb b va, hs, hw, _ => by
-    simp only [safeTB, Bool.not_eq_true'] at hs
-    have hone : placeOne pst pbase pmt by_ (.text y h mt mb b va) =
-        (.text (childBaseline pst pbase pmt by_ va (h + mt + mb) b - b) h mt mb b va,
-         Ext.add none (childBaseline pst pbase pmt by_ va (h + mt + mb) b - b)
-           (childBaseline pst pbase pmt by_ va (h + mt + mb) b - b + (h + mt + mb)), []) := by
-      unfold placeOne
-      simp only [hs, Bool.false_eq_true, if_false]
-    rw [hone] at hw ⊢
-    intro d hd
-    simp only [shift, allBoxes, List.mem_singleton, Rat.add_zero] at hd
-    subst hd
-    have := Ext.within_add none _ _ lo hi hw
-    simp only [VBox.y, VBox.marginHeight]
-    exact ⟨this.2.1, this.2.2⟩
-  | .box y h mt mb b st kids, hs, hw, hp => by
+    ∀ d ∈ allBoxes (shift lo hi carried (placeOne pst pbase pmt by_ c).1), lo ≤ d.y ∧ d.y + d.marginHeight ≤ hi
+  | .text y h mt mb b va, carried, hw, hp => by
+    cases hs : va.isTopBottom with
+    | false =>
+      rw [placeOne_text_plain pst pbase pmt by_ y h mt mb b va hs] at hw ⊢
+      intro d hd
+      simp only [shift, hs, Bool.false_eq_true, if_false, allBoxes, List.mem_singleton] at hd
+      subst hd
+      have := Ext.within_add none _ _ _ _ hw
+      simp only [VBox.y, VBox.marginHeight]
+      constructor <;> grind
+    | true =>
+      rw [placeOne_text_tb pst pbase pmt by_ y h mt mb b va hs] at hp ⊢
+      have he : lo + (h + mt + mb) ≤ hi := hp _ (by simp)
+      intro d hd
+      simp only [shift, hs, if_true, ownDy, extentOf, Ext.add, VBox.va, allBoxes, List.mem_singleton] at hd
+      subst hd
+      simp only [VBox.y, VBox.marginHeight]
+      by_cases htop : va = .top
+      · simp only [htop, if_true]; constructor <;> grind
+      · simp only [htop, if_false]; constructor <;> grind
+  | .box y h mt mb b st kids, carried, hw, hp => by
     cases htb : st.va.isTopBottom with
     | false =>
-      simp only [safeTB, htb, Bool.false_eq_true, if_false] at hs
-      have hone : placeOne pst pbase pmt by_ (.box y h mt mb b st kids) =
-          (.box (childBaseline pst pbase pmt by_ st.va (h + mt + mb + st.bt + st.pt + st.pb + st.bb) b - b) h mt mb b st
-            (placeKids st b mt (childBaseline pst pbase pmt by_ st.va (h + mt + mb + st.bt + st.pt + st.pb + st.bb) b) kids).1,
-           (Ext.add none (childBaseline pst pbase pmt by_ st.va (h + mt + mb + st.bt + st.pt + st.pb + st.bb) b - b)
-             (childBaseline pst pbase pmt by_ st.va (h + mt + mb + st.bt + st.pt + st.pb + st.bb) b - b +
-               (h + mt + mb + st.bt + st.pt + st.pb + st.bb))).merge
-             (placeKids st b mt (childBaseline pst pbase pmt by_ st.va (h + mt + mb + st.bt + st.pt + st.pb + st.bb) b) kids).2.1,
-           (placeKids st b mt (childBaseline pst pbase pmt by_ st.va (h + mt + mb + st.bt + st.pt + st.pb + st.bb) b) kids).2.2) := by
-        unfold placeOne
-        simp only [htb, Bool.false_eq_true, if_false]
-      rw [hone] at hw hp ⊢
+      rw [placeOne_box_plain pst pbase pmt by_ y h mt mb b st kids htb] at hw hp ⊢
       simp only at hw hp
-      have hm := Ext.within_merge _ _ lo hi hw
+      have hm := Ext.within_merge _ _ _ _ hw
       have ih := placeKids_shift_inside st b mt
-        (childBaseline pst pbase pmt by_ st.va (h + mt + mb + st.bt + st.pt + st.pb + st.bb) b) lo hi kids hs hm.2 hp
+        (childBaseline pst pbase pmt by_ st.va (h + mt + mb + st.bt + st.pt + st.pb + st.bb) b) lo hi kids carried hm.2 hp
       intro d hd
-      simp only [shift, htb, Bool.false_eq_true, if_false, allBoxes, List.mem_cons, Rat.add_zero] at hd
+      simp only [shift, htb, Bool.false_eq_true, if_false, allBoxes, List.mem_cons] at hd
       rcases hd with hd | hd
       · subst hd
-        have := Ext.within_add none _ _ lo hi hm.1
+        have := Ext.within_add none _ _ _ _ hm.1
         simp only [VBox.y, VBox.marginHeight]
-        exact ⟨this.2.1, this.2.2⟩
+        constructor <;> grind
       · exact ih d hd
     | true =>
-      simp only [safeTB, htb, if_true] at hs
-      have hk := placeKids_textOnly st b mt 0 kids hs
-      have hcb := childBaseline_tb pst pbase pmt by_ st.va (h + mt + mb + st.bt + st.pt + st.pb + st.bb) b htb
       obtain ⟨smx, smn, hsub, hs1, hs2⟩ := Ext.add_self (placeKids st b mt 0 kids).2.1 (0 - b)
         (0 - b + (h + mt + mb + st.bt + st.pt + st.pb + st.bb))
-      have hone : placeOne pst pbase pmt by_ (.box y h mt mb b st kids) =
-          (.box (0 - b) h mt mb b st (placeKids st b mt 0 kids).1, none, [smx - smn]) := by
-        unfold placeOne
-        simp only [htb, if_true, hcb, hsub, hk.1, List.append_nil]
-      rw [hone] at hp ⊢
+      rw [placeOne_box_tb pst pbase pmt by_ y h mt mb b st kids htb smx smn hsub] at hp ⊢
       have he : lo + (smx - smn) ≤ hi := hp _ (by simp)
-      intro d hd
       have hext : extentOf (.box (0 - b) h mt mb b st (placeKids st b mt 0 kids).1) = some (smx, smn) := by
-        simp only [extentOf, VBox.marginHeight, hk.2.2.1]
+        simp only [extentOf, VBox.marginHeight, placeKids_extent]
         exact hsub
-      simp only [shift, htb, if_true, hext, Rat.add_zero, allBoxes, List.mem_cons] at hd
-      rcases hd with hd | hd
-      · subst hd
-        simp only [VBox.y, VBox.marginHeight]
-        split <;> constructor <;> grind
-      · obtain ⟨d0, hm0, h1, h2⟩ := shiftL_textOnly lo hi _ _ hk.2.1 d hd
-        have hc := hk.2.2.2 d0 hm0
-        have hc' := Ext.add_mono _ (0 - b) (0 - b + (h + mt + mb + st.bt + st.pt + st.pb + st.bb)) _ _ hc
-        obtain ⟨mx', mn', he', h3, h4⟩ := hc'
-        rw [hsub] at he'
-        cases he'
-        rw [h1, h2]
-        split <;> constructor <;> grind
-theorem placeKids_shift_inside (pst : VStyle) (pbase pmt by_ lo hi : Rat) : ∀ (cs : List VBox), safeTBL cs = true →
-    Ext.Within (placeKids pst pbase pmt by_ cs).2.1 lo hi →
+      -- the children's own extent lies inside the subtree's extent
+      have hin : Ext.Within (placeKids st b mt 0 kids).2.1 smn smx := by
+        have hw0 : Ext.Within ((placeKids st b mt 0 kids).2.1.add (0 - b)
+            (0 - b + (h + mt + mb + st.bt + st.pt + st.pb + st.bb))) smn smx := by
+          intro mx' mn' he'; rw [hsub] at he'; cases he'; exact ⟨Rat.le_refl, Rat.le_refl⟩
+        exact (Ext.within_add _ _ _ _ _ hw0).1
+      intro d hd
+      simp only [shift, htb, if_true, ownDy, hext, VBox.va, allBoxes, List.mem_cons] at hd
+      by_cases htop : st.va = .top
+      · simp only [htop, if_true] at hd
+        have hkids := placeKids_shift_inside st b mt 0 lo hi kids (lo - smn)
+          (by intro mx' mn' he'; have := hin mx' mn' he'; constructor <;> grind)
+          (fun e he' => hp e (List.mem_append.mpr (Or.inr he')))
+        rcases hd with hd | hd
+        · subst hd
+          simp only [VBox.y, VBox.marginHeight]
+          constructor <;> grind
+        · exact hkids d hd
+      · simp only [htop, if_false] at hd
+        have hkids := placeKids_shift_inside st b mt 0 lo hi kids (hi - smx)
+          (by intro mx' mn' he'; have := hin mx' mn' he'; constructor <;> grind)
+          (fun e he' => hp e (List.mem_append.mpr (Or.inr he')))
+        rcases hd with hd | hd
+        · subst hd
+          simp only [VBox.y, VBox.marginHeight]
+          constructor <;> grind
+        · exact hkids d hd
+theorem placeKids_shift_inside (pst : VStyle) (pbase pmt by_ lo hi : Rat) : ∀ (cs : List VBox) (carried : Rat),
+    Ext.Within (placeKids pst pbase pmt by_ cs).2.1 (lo - carried) (hi - carried) →
     (∀ e ∈ (placeKids pst pbase pmt by_ cs).2.2, lo + e ≤ hi) →
-    ∀ d ∈ allBoxesL (shiftL lo hi 0 (placeKids pst pbase pmt by_ cs).1), lo ≤ d.y ∧ d.y + d.marginHeight ≤ hi
+    ∀ d ∈ allBoxesL (shiftL lo hi carried (placeKids pst pbase pmt by_ cs).1), lo ≤ d.y ∧ d.y + d.marginHeight ≤ hi
   | [], _, _, _ => by
     unfold placeKids
     intro d hd
     simp [shiftL, allBoxesL] at hd
-  | c :: cs, hs, hw, hp => by
-    simp only [safeTBL, Bool.and_eq_true] at hs
+  | c :: cs, carried, hw, hp => by
     unfold placeKids at hw hp ⊢
     simp only at hw hp ⊢
-    have hm := Ext.within_merge _ _ lo hi hw
-    have h1 := placeOne_shift_inside pst pbase pmt by_ lo hi c hs.1 hm.1
+    have hm := Ext.within_merge _ _ _ _ hw
+    have h1 := placeOne_shift_inside pst pbase pmt by_ lo hi c carried hm.1
       (fun e he => hp e (List.mem_append.mpr (Or.inl he)))
-    have h2 := placeKids_shift_inside pst pbase pmt by_ lo hi cs hs.2 hm.2
+    have h2 := placeKids_shift_inside pst pbase pmt by_ lo hi cs carried hm.2
       (fun e he => hp e (List.mem_append.mpr (Or.inr he)))
     intro d hd
     simp only [shiftL, allBoxesL, List.mem_append] at hd
     rcases hd with hd | hd
     · exact h1 d hd
     · exact h2 d hd
-end
-
-/-- the same predicates on the tree before layout -/
-def textOnlyNodeL : List VNode → Bool
-  | [] => true
-  | .text st :: ks => !st.va.isTopBottom && textOnlyNodeL ks
-  | .box _ _ :: _ => false
-
-mutual
-def safeTBNode : VNode → Bool
-  | .text st => !st.va.isTopBottom
-  | .box st kids => if st.va.isTopBottom then textOnlyNodeL kids else safeTBNodeL kids
-def safeTBNodeL : List VNode → Bool
-  | [] => true
-  | k :: ks => safeTBNode k && safeTBNodeL ks
-end
-
-theorem buildL_textOnly : ∀ (ns : List VNode), textOnlyNodeL ns = true → textOnlyL (buildL ns) = true
-  | [], _ => rfl
-  | .box _ _ :: _, h => by simp [textOnlyNodeL] at h
-  | .text st :: ns, h => by
-    simp only [textOnlyNodeL, Bool.and_eq_true] at h
-    simp only [buildL, build, textOnlyL, Bool.and_eq_true]
-    exact ⟨h.1, buildL_textOnly ns h.2⟩
-
-mutual
-theorem build_safeTB : ∀ (n : VNode), safeTBNode n = true → safeTB (build n) = true
-  | .text st, h => by simpa [build, safeTB, safeTBNode] using h
-  | .box st kids, h => by
-    simp only [safeTBNode] at h
-    simp only [build, safeTB]
-    cases htb : st.va.isTopBottom with
-    | true => rw [htb] at h; simp only [if_true] at h ⊢; exact buildL_textOnly kids h
-    | false => rw [htb] at h; simp only [Bool.false_eq_true, if_false] at h ⊢; exact buildL_safeTB kids h
-theorem buildL_safeTB : ∀ (ns : List VNode), safeTBNodeL ns = true → safeTBL (buildL ns) = true
-  | [], _ => rfl
-  | n :: ns, h => by
-    simp only [safeTBNodeL, Bool.and_eq_true] at h
-    simp only [buildL, safeTBL, Bool.and_eq_true]
-    exact ⟨build_safeTB n h.1, buildL_safeTB ns h.2⟩
-end
-
-mutual
-/-- lines without any `top` / `bottom` box are a special case -/
-theorem safeTBNode_of_noTB : ∀ (n : VNode), noTBNode n = true → safeTBNode n = true
-  | .text st, h => by simpa [noTBNode, safeTBNode] using h
-  | .box st kids, h => by
-    simp only [noTBNode, Bool.and_eq_true, Bool.not_eq_true'] at h
-    simp only [safeTBNode, h.1, Bool.false_eq_true, if_false]
-    exact safeTBNodeL_of_noTB kids h.2
-theorem safeTBNodeL_of_noTB : ∀ (ns : List VNode), noTBNodeL ns = true → safeTBNodeL ns = true
-  | [], _ => rfl
-  | n :: ns, h => by
-    simp only [noTBNodeL, Bool.and_eq_true] at h
-    simp only [safeTBNodeL, Bool.and_eq_true]
-    exact ⟨safeTBNode_of_noTB n h.1, safeTBNodeL_of_noTB ns h.2⟩
 end
 
 theorem foldl_max_ge_mem (mn : Rat) (es : List Rat) (m : Rat) :
@@ -296,21 +263,19 @@ theorem foldl_max_ge_mem (mn : Rat) (es : List Rat) (m : Rat) :
       split <;> grind
     · exact ih _ e hm
 
-/-- **no overlap between lines, `top` / `bottom` included**: in a line where every
-`vertical-align: top | bottom` inline box holds only text, every box — at any nesting depth below
-baseline-relative boxes, for any font sizes, line-heights, alignments, borders and paddings — has its
-margin box inside the line box `[y, y + height]` after `translate_subtree`.  The hypothesis is exactly
-the boundary of finding vertical-align-top-bottom-subtree
-(`Witness.C09.top_aligned_grandchild_left_behind`: one inline box inside a `top` box breaks it). -/
-theorem boxes_inside_line_tb (lineSt : VStyle) (kids : List VNode) (posY : Rat) (l : VLine)
-    (hn : safeTBNodeL kids = true) (h : layoutLine lineSt kids posY = .ok l) :
+/-- **no overlap between lines** (full strength): in every line — any nesting of inline boxes, any
+font sizes, line-heights, borders and paddings, every `vertical-align` value including `top` /
+`bottom` boxes holding inline boxes or other `top` / `bottom` boxes — every box has its margin box
+inside the line box `[y, y + height]` after `translate_subtree`.  (Before fix 5152049 this needed the
+hypothesis that every `top` / `bottom` box holds only text: the grand-children were left behind.) -/
+theorem boxes_inside_line_full (lineSt : VStyle) (kids : List VNode) (posY : Rat) (l : VLine)
+    (h : layoutLine lineSt kids posY = .ok l) :
     l.y = posY ∧ ∀ d ∈ allBoxesL l.kids, l.y ≤ d.y ∧ d.y + d.marginHeight ≤ l.y + l.height := by
   unfold layoutLine at h
   generalize ({ lineSt with bt := 0, pt := 0, pb := 0, bb := 0 } : VStyle) = st at h
   obtain ⟨y0, h0, mt0, mb0, b0, hb⟩ : ∃ y0 h0 mt0 mb0 b0,
       build (.box st kids) = .box y0 h0 mt0 mb0 b0 st (buildL kids) := ⟨_, _, _, _, _, by simp only [build]; rfl⟩
   simp only [hb, placeSub] at h
-  have hsafe := buildL_safeTB kids hn
   cases hext : (placeKids st b0 mt0 0 (buildL kids)).2.1.add (0 - b0)
       (0 - b0 + (VBox.box y0 h0 mt0 mb0 b0 st (buildL kids)).marginHeight) with
   | none => rw [hext] at h; cases h
@@ -328,7 +293,10 @@ theorem boxes_inside_line_tb (lineSt : VStyle) (kids : List VNode) (posY : Rat) 
         (0 - b0 + (VBox.box y0 h0 mt0 mb0 b0 st (buildL kids)).marginHeight)) mn mx0 := by
       intro mx' mn' he; rw [hext] at he; cases he; exact ⟨Rat.le_refl, Rat.le_refl⟩
     have hw := Ext.within_mono _ _ _ _ (Ext.within_add _ _ _ _ _ hw0).1 hmx
-    have hin := placeKids_shift_inside st b0 mt0 0 mn _ (buildL kids) hsafe hw hpend
+    have hw' : Ext.Within (placeKids st b0 mt0 0 (buildL kids)).2.1 (mn - 0)
+        ((placeKids st b0 mt0 0 (buildL kids)).2.2.foldl (fun m e => if mn + e > m then mn + e else m) mx0 - 0) := by
+      intro mx' mn' he; have := hw mx' mn' he; constructor <;> grind
+    have hin := placeKids_shift_inside st b0 mt0 0 mn _ (buildL kids) 0 hw' hpend
     obtain ⟨d, hm, h1, h2⟩ := allBoxesL_translateY (posY - mn) _ d' hd'
     have := hin d hm
     simp only
